@@ -100,6 +100,8 @@ FOREIGN_ATTRS = [
     'non_exhaustive',
     'derive ( Debug )',
     'cfg ( all ( ) )',
+    'deprecated',
+    'deprecated ( note = "x" )',
 ]
 # foreign attributes with a multi-segment path whose LAST segment is spelled like a helper attribute (token-level
 # generators only: rustc could not resolve them).  derive_ex owns bare identifiers only.
